@@ -106,6 +106,9 @@ def mk(case, dtype=float):
         df = pd.DataFrame(mtx, index=alts, columns=crits)
         if case.get("dtypes"):
             df = df.astype({c: t for c, t in zip(crits, case["dtypes"])})
+        if zlib.crc32(repr((alts, wts)).encode()) & 1:
+            # the caller's frame has axis names of its own
+            df.index.name, df.columns.name = "id", "indicator"
         return DecisionMatrix(df, pd.Series([int(o) for o in objs]), pd.Series([float(x) for x in wts]))
     if route == "arraykind" and not case.get("dtypes"):
         # the same numbers in another kind of container: Fortran-ordered, a strided read-only view of a larger array,
@@ -171,7 +174,9 @@ def set_salt(x):
     SALT[0] = zlib.crc32(repr(x).encode())
 
 
-VARIANTS = ("direct", "direct", "copy", "rebuild", "positional", "fresh_strings", "numpy_scalars", "pickle", "copy_kw")
+VARIANTS = ("direct", "direct", "copy", "rebuild", "positional", "fresh_strings", "numpy_scalars", "pickle", "copy_kw",
+            "deepcopy", "subclass")
+_SUBCLASSES = {}
 
 
 def variant(cls, params, key, first_positional=None):
@@ -197,6 +202,15 @@ def variant(cls, params, key, first_positional=None):
                 return pickle.loads(pickle.dumps(base))
             except Exception:  # noqa: BLE001   (a parameter that cannot be pickled is the caller's business)
                 return base
+        if route == "deepcopy":
+            import copy as _copy
+            return _copy.deepcopy(base)
+        if route == "subclass":
+            # a user's own subclass that changes nothing (class MyTOPSIS(TOPSIS): pass): the same method
+            sub = _SUBCLASSES.get(cls)
+            if sub is None:
+                sub = _SUBCLASSES[cls] = type(cls.__name__, (cls,), {"__module__": cls.__module__, "__doc__": cls.__doc__})
+            return sub(*args, **params)
         if route == "copy_kw" and first_positional is None and params:
             return cls().copy(**params)
         if route == "positional" and params:
@@ -222,6 +236,10 @@ def variant(cls, params, key, first_positional=None):
             return cls(*args, **kw)
     except TypeError:
         return base
+    except Exception:  # noqa: BLE001
+        if route in ("deepcopy", "subclass"):
+            return base
+        raise
     return base
 
 
